@@ -180,7 +180,11 @@ def obligations(tier, seed):
     thorough = [(p, q, nm, k, c, m) for p in POLYS for q in QUATS for nm in ("default", "plus", "minus") for k in ("k0", "k2")
                 for c in (("Polygon", "ConvexPolygon") if p in CONVEX else ("Polygon",)) for m in ("batch1",)]
     thorough += [(p, "xy", "default", "k0", "Polygon", m) for p in POLYS for m in ("xy2", "single3", "batch3")]
-    cfgs = quick if tier == "quick" else sorted(set(quick + thorough))
+    # each obligation costs about a second, so the quick tier runs the full configuration matrix as well;
+    # the thorough tier adds batches of three points for every polygon / plane
+    if tier == "thorough":
+        thorough += [(p, q, "default", "k1", "Polygon", "batch3") for p in POLYS for q in QUATS]
+    cfgs = sorted(set(quick + thorough))
     for cfg in cfgs:
         obs.append(_poly_ob(*cfg, tier))
     from coxeter.shapes import Circle, Ellipse
